@@ -400,6 +400,60 @@ func c13r5(p *Program, r *Report) {
 		})
 		r.Check(okSend, run.Decl, "(*queryExecutor).run delivers its result without blocking forever", "send in a select with <-ctx.Done()", "the result is sent with a bare channel send: an execution that lost the race blocks forever (goroutine leak)")
 	}
+	// because run may drop its result when the context ends, a receiver of results that does not also watch the
+	// context can wait for a result nobody will send
+	for _, name := range []string{"(*queryExecutor).executeQuery", "(*queryExecutor).speculate"} {
+		f2 := r.NeedFunc(name)
+		if f2 == nil {
+			continue
+		}
+		i2 := f2.Pkg.TypesInfo
+		n := 0
+		ast.Inspect(f2.Decl.Body, func(x ast.Node) bool {
+			u, ok := x.(*ast.UnaryExpr)
+			if !ok || u.Op != token.ARROW {
+				return true
+			}
+			t := i2.TypeOf(u.X)
+			if t == nil {
+				return true
+			}
+			ch, isCh := t.Underlying().(*types.Chan)
+			if !isCh || typeNameOf(ch.Elem()) != "Iter" {
+				return true
+			}
+			n++
+			watched := false
+			// the receive must be the communication of a select case with a sibling on <-ctx.Done()
+			var stmt ast.Node = u
+			for stmt != nil {
+				if _, isCC := p.Parent(stmt).(*ast.CommClause); isCC {
+					break
+				}
+				stmt = p.Parent(stmt)
+				if stmt == ast.Node(f2.Decl) {
+					stmt = nil
+				}
+			}
+			if stmt != nil {
+				if cc, ok := p.Parent(stmt).(*ast.CommClause); ok && cc.Comm == stmt {
+					if sel, ok := p.Parent(p.Parent(cc)).(*ast.SelectStmt); ok {
+						for _, sib := range commClauses(sel) {
+							if chx := recvChan(sib.Comm); chx != nil && strings.HasSuffix(exprStr(chx), ".Done()") {
+								watched = true
+							}
+						}
+					}
+				}
+			}
+			r.Check(watched, u, name+" waits for a result only together with the context", "receive from results in a select with <-ctx.Done()",
+				"the result channel is read with a bare receive: run() drops its result when the context ends (its select takes <-ctx.Done()), so after cancellation or a deadline nothing may ever arrive and the caller hangs")
+			return true
+		})
+		if n == 0 {
+			r.Unresolved("%s: no receive from the results channel", name)
+		}
+	}
 }
 
 func c13r6(p *Program, r *Report) {
